@@ -68,6 +68,11 @@ class UeSequence:
     normalize : bool
         True if the reference signal should be normalized. False otherwise.
     """
+    # Let numpy arrays defer to `__radd__` / `__rmul__`: without this
+    # `ndarray + ue_seq` treats the object as a scalar and returns an object
+    # array instead of `ndarray + ue_seq.seq_array()`
+    __array_ufunc__ = None
+
     def __init__(self,
                  root_seq: RootSequence,
                  n_cs: int,
